@@ -215,6 +215,56 @@ def gen_graph_case(rng):
             work.extend(g[x])
         sub = {n: set(d for d in g[n] if d in reach) for n in reach}
         return "imports", files, "import-cycle" if cyclic_components(sub) else "ok"
+    if r < 0.38:
+        # constants spread over several types: `let x = Other.y + 1`, enum values defined as values of other enums, an
+        # enum value taking a structure's constant; edges cross type boundaries through static references
+        n = rng.randint(2, 9)
+        types = ["Sa", "Sb", "Sc"][:rng.randint(2, 3)]
+        home = [rng.choice(types) for _ in range(n)]
+        names = ["k%d" % i for i in range(n)]
+        g = {x: set() for x in names}
+        style = rng.random()
+        for i, a in enumerate(names):
+            for j, b in enumerate(names):
+                if i == j:
+                    continue
+                p = 0.25 if j > i else (0.08 if style < 0.5 else 0.0)
+                if rng.random() < p:
+                    g[a].add(b)
+        body = {t: [] for t in types}
+        order = list(range(n))
+        rng.shuffle(order)
+        for i in order:
+            deps = ["%s.%s" % (home[names.index(d)], d) if (home[names.index(d)] != home[i] or rng.random() < 0.3) else d
+                    for d in sorted(g[names[i]])]
+            body[home[i]].append("  let %s = %s" % (names[i], " + ".join(deps + [str(rng.randint(0, 9))])))
+        lines = ['[$default byte_order: "LittleEndian"]']
+        for t in types:
+            lines += ["struct %s:" % t, "  0 [+1]  UInt  filler"] + body[t]
+        exp = bool(cyclic_components(g))
+        kind = "cross-type"
+        if rng.random() < 0.4:
+            # two enums whose values are defined through each other / through a structure constant
+            m = rng.randint(2, 5)
+            ev = ["W%d_X" % i for i in range(m)]
+            eh = [rng.choice(["Ea", "Eb"]) for _ in range(m)]
+            eg = {x: set() for x in ev}
+            for i, a in enumerate(ev):
+                if rng.random() < 0.5:
+                    b = rng.choice([x for x in ev if x != a] or [a])
+                    if b != a:
+                        eg[a].add(b)
+            for en in ("Ea", "Eb"):
+                mine = [i for i in range(m) if eh[i] == en]
+                if not mine:
+                    continue
+                lines.append("enum %s:" % en)
+                for i in mine:
+                    d = sorted(eg[ev[i]])
+                    lines.append("  %s = %s" % (ev[i], ("%s.%s" % (eh[ev.index(d[0])], d[0])) if d else str(rng.randint(0, 9))))
+            exp = exp or bool(cyclic_components(eg))
+            kind += "+enum"
+        return kind, {"m.emb": "\n".join(lines) + "\n"}, "cycle" if exp else "ok"
     n = rng.randint(2, 14)
     if rng.random() < LONG_CHAIN_P[0]:
         n = rng.randint(60, LONG_CHAIN_MAX[0])  # long chains (inside the property's ~300 line bound)
